@@ -192,8 +192,10 @@ namespace xsimd
                 // https://docs.kernel.org/admin-guide/hw-vuln/gather_data_sampling.html
 
                 unsigned sse_state_os_enabled = 1;
-                unsigned avx_state_os_enabled = 1;
-                unsigned avx512_state_os_enabled = 1;
+                // AVX / AVX512 register state can only be enabled by the OS through
+                // XSETBV, which requires OSXSAVE: without it these states are unusable
+                unsigned avx_state_os_enabled = 0;
+                unsigned avx512_state_os_enabled = 0;
 
                 // OSXSAVE: A value of 1 indicates that the OS has set CR4.OSXSAVE[bit
                 // 18] to enable XSETBV/XGETBV instructions to access XCR0 and
